@@ -582,7 +582,7 @@ VARIANTS = [
             "re.finditer(r\"(?<=.)__(?=[^_])\", node.attr)", "re.finditer(r\"(?<!^)__(?=[^_])\", node.attr)"),
     Variant("member-name-with-the-extra-underscores-of-the-class", "FIRE", "main",
             "re.finditer(r\"(?<=.)__(?=[^_])\", node.attr)", "re.finditer(r\"(?<=[^_])_*?__(?=[^_])\", node.attr)", "R8.8"),
-    Variant("star-imports-narrowed-without-the-preserved-names", "FIRE", "tracing", "    for name in sorted(undefined_names | passed_on_names):", "    for name in sorted(undefined_names):", "R8.6"),
+    Variant("star-imports-narrowed-without-the-preserved-names", "FIRE", "tracing", "    for name in sorted(undefined_names | passed_on_names | shadowed_builtins):", "    for name in sorted(undefined_names | shadowed_builtins):", "R8.6"),
     Variant("single-run-chain-called-without-preserve", "FIRE", "main", "    source = single_run_fixes(source, preserve=preserve)", "    source = single_run_fixes(source)", "R8.6"),
     Variant("keyword-names-not-recorded", "FIRE", "main", "    names.extend(node.arg for node in core.walk(ast_root, ast.keyword) if node.arg)\n", "", "R8.7"),
     Variant("class-pattern-keywords-not-recorded", "FIRE", "main", "            names.extend(node.kwd_attrs)\n", "            pass\n", "R8.7"),
